@@ -53,6 +53,7 @@ type Solver struct {
 	bin       string
 	args      []string
 	ndefined  int
+	stack     []*Term // assertions currently on the solver's stack (one push level each)
 }
 
 func NewSolver(bank *TermBank, timeoutMS int) *Solver {
@@ -76,7 +77,8 @@ func (s *Solver) start() {
 		panic(fmt.Sprintf("gosx: cannot start solver %s: %v", s.bin, err))
 	}
 	s.cmd, s.in, s.out = cmd, in, bufio.NewReaderSize(out, 1<<16)
-	fmt.Fprintf(s.in, "(set-option :produce-models true)\n(set-option :timeout %d)\n", s.timeoutMS)
+	fmt.Fprintf(s.in, "(set-option :produce-models true)\n(set-option :global-declarations true)\n(set-option :timeout %d)\n", s.timeoutMS)
+	s.stack = nil
 	for _, t := range s.bank.all {
 		t.defined = false
 	}
@@ -176,10 +178,32 @@ func (s *Solver) check(cs []*Term, deciding bool, wantModel []*Term) (satResult,
 	for _, m := range wantModel {
 		s.define(m)
 	}
-	s.buf.WriteString("(push 1)\n")
-	for _, c := range cs {
-		s.buf.WriteString("(assert ")
+	// keep the path condition on the solver's assertion stack: pop back to the
+	// longest common prefix with what is asserted, push the rest; only the last
+	// conjunct is asserted under a temporary level
+	base := cs
+	var last *Term
+	if len(cs) > 0 {
+		base, last = cs[:len(cs)-1], cs[len(cs)-1]
+	}
+	common := 0
+	for common < len(s.stack) && common < len(base) && s.stack[common] == base[common] {
+		common++
+	}
+	if n := len(s.stack) - common; n > 0 {
+		fmt.Fprintf(&s.buf, "(pop %d)\n", n)
+		s.stack = s.stack[:common]
+	}
+	for _, c := range base[common:] {
+		s.buf.WriteString("(push 1)\n(assert ")
 		s.buf.WriteString(c.ref())
+		s.buf.WriteString(")\n")
+		s.stack = append(s.stack, c)
+	}
+	s.buf.WriteString("(push 1)\n")
+	if last != nil {
+		s.buf.WriteString("(assert ")
+		s.buf.WriteString(last.ref())
 		s.buf.WriteString(")\n")
 	}
 	s.buf.WriteString("(check-sat)\n(echo \"@@\")\n")
